@@ -18,6 +18,7 @@ import (
 	"fmt"
 	"path/filepath"
 	"regexp"
+	"sort"
 	"strings"
 
 	"github.com/cloudwego/thriftgo/generator/backend"
@@ -139,9 +140,17 @@ func (p *insertionPointReplacer) Add(x, content string) {
 }
 
 func (p *insertionPointReplacer) Replace(content string) string {
-	oldnews := make([]string, 0, 2*len(p.m))
-	for k, v := range p.m {
-		oldnews = append(oldnews, k, v)
+	keys := make([]string, 0, len(p.m))
+	for k := range p.m {
+		keys = append(keys, k)
+	}
+	// strings.Replacer prefers the pair listed first when two keys match at one
+	// position: list the keys in a fixed order (not map order), longer key first
+	// among keys where one is a prefix of the other.
+	sort.Sort(sort.Reverse(sort.StringSlice(keys)))
+	oldnews := make([]string, 0, 2*len(keys))
+	for _, k := range keys {
+		oldnews = append(oldnews, k, p.m[k])
 	}
 	return strings.NewReplacer(oldnews...).Replace(content)
 }
